@@ -80,20 +80,31 @@ checks = opt("--checks", pid).split()
 tier = opt("--tier", "quick")
 res["checks"] = {}
 if res["confirmed"]:
-    st = subprocess.run("git -C /repo status --porcelain", shell=True, stdout=subprocess.PIPE, text=True).stdout
-    assert st.strip() == "", "/repo not clean"
+    # run in an isolated copy of /verif against a clone of /repo with the patch: working copies stay untouched
+    iso = "/dev/shm/triage-%d" % os.getpid()
+    os.makedirs(iso)
     try:
-        subprocess.run("git -C /repo apply %s" % patch, shell=True, check=True)
+        subprocess.run(["rsync", "-a", "--exclude", "replays", "--exclude", ".git", "/verif/", iso + "/verif/"], check=True)
+        subprocess.run(["git", "clone", "-q", "/repo", iso + "/repo"], check=True)
+        subprocess.run("git -C %s/repo apply %s" % (iso, patch), shell=True, check=True)
         for c in checks:
             t0 = time.time()
-            p = subprocess.run("./check %s %s" % (c, tier), cwd="/verif", shell=True, stdout=subprocess.PIPE, stderr=subprocess.STDOUT, text=True)
+            p = subprocess.run("./check %s %s" % (c, tier), cwd=iso + "/verif", shell=True, env=dict(os.environ, VERIF_REPO=iso + "/repo"),
+                               stdout=subprocess.PIPE, stderr=subprocess.STDOUT, text=True)
             v = [l for l in p.stdout.splitlines() if l.startswith("VIOLATION")]
-            sigs = [l.strip() for l in p.stdout.splitlines() if "signature:" in l or "VIOLATION C" in l][:3]
-            res["checks"][c] = {"tier": tier, "exit": p.returncode, "violation_lines": v[:3], "first_signatures": [s[:300] for s in sigs], "wall_s": round(time.time() - t0, 1)}
-            print("  ./check %s %s -> exit %d %s" % (c, tier, p.returncode, (v[0][:160] if v else "")))
+            sigs = []
+            for l in v[:3]:
+                mm = re.search(r"replay=(\S+)", l)
+                if mm and os.path.exists(mm.group(1)):
+                    for ln in open(mm.group(1), errors="replace"):
+                        if "VIOLATION" in ln:
+                            sigs.append(ln.strip()[:300]); break
+            res["checks"][c] = {"tier": tier, "exit": p.returncode, "violation_lines": [x.replace(iso, "") for x in v[:3]], "first_signatures": sigs, "wall_s": round(time.time() - t0, 1)}
+            print("  ./check %s %s -> exit %d %s" % (c, tier, p.returncode, (sigs[0][:200] if sigs else (v[0][:160] if v else ""))))
     finally:
-        subprocess.run("git -C /repo checkout -q -- . && git -C /repo clean -fdq", shell=True)
-out = os.path.join("/verif/seeded", "%s-%s" % (pid, n))
+        shutil.rmtree(iso, ignore_errors=True)
+out = os.path.join("/verif/seeded", "%s-%s" % (pid, opt("--as", n)))
+res["n"] = int(opt("--as", n))
 os.makedirs(out, exist_ok=True)
 shutil.copy(patch, os.path.join(out, "patch.diff"))
 if os.path.isfile(demo):
